@@ -68,7 +68,11 @@ def h_sample(I, fi):
         ok = len(trace) == 1 and trace[0][0] == "gamma"
         P.check("gibbs.K=0.prior-draw", ok and dsl.conj(P.z(I.to_num(trace[0][1][0])) == P.z(a), P.z(I.to_num(trace[0][2].get("scale"))) == P.z(1 / b)),
                 "with no clone the value is drawn from the Gamma(a, rate b) prior", kind="post")
-        P.check("gibbs.K=0.result-clamped", P.z(I.to_num(out)) >= P.z(Num.const(1e-10)), "also the prior draw is clamped at 1e-10 (a draw that underflows to 0 would make log alpha -inf)", kind="post")
+        from fractions import Fraction
+        tiny = Num.const(Fraction(2.2250738585072014e-308))
+        draw0 = trace[0][4] if ok and len(trace[0]) > 4 else None
+        P.check("gibbs.K=0.result-is-the-draw-above-underflow", draw0 is not None and z3.And(P.z(I.to_num(out)) > 0, z3.Implies(P.z(draw0) > P.z(tiny), P.z(I.to_num(out)) == P.z(draw0))) if draw0 is not None else False,
+                "the new value is the prior draw itself; a floor may only replace draws below the smallest normal float (a draw that underflows to 0 would make log alpha -inf), so that the distribution is not distorted", kind="post")
         return
     ok = len(trace) == 3 and [t[0] for t in trace] == ["beta", "bernoulli", "gamma"]
     P.check("gibbs.draw-sequence", ok, "auxiliary beta draw, then the mixture component, then one gamma draw", kind="post")
@@ -101,7 +105,7 @@ def h_sample(I, fi):
 
 
 def h_sample_result(I, fi):
-    """result = max(gamma draw, 1e-10) and rate = b - log(eta), shape increment = the bernoulli outcome"""
+    """result = the gamma draw (a floor may act below the smallest normal float only), rate = b - log(eta), shape increment = the bernoulli outcome"""
     P = I.P
     trace = I.registry.trace
     del trace[:]
@@ -116,10 +120,10 @@ def h_sample_result(I, fi):
     P.check("gibbs.rate-formula", z3.And(z3.BoolVal(len(eta_atoms) == 1), P.z(I.to_num(ga[2]["scale"])) * P.z(b - alg.slog(Num.of_atom(eta_atoms[0]))) == 1) if eta_atoms else False,
             "gamma scale = 1 / (b - log(eta))", kind="post")
     draw = ga[4] if len(ga) > 4 else None
-    clamp = Num.const(1e-10)
-    P.check("gibbs.result-is-clamped-draw", draw is not None and z3.And(P.z(I.to_num(out)) >= P.z(clamp), z3.Or(P.z(I.to_num(out)) == P.z(draw), P.z(I.to_num(out)) == P.z(clamp)),
-                                                                      z3.Implies(P.z(draw) >= P.z(clamp), P.z(I.to_num(out)) == P.z(draw))) if draw is not None else False,
-            "new value = max(gamma draw, 1e-10)", kind="post")
+    from fractions import Fraction
+    tiny = Num.const(Fraction(2.2250738585072014e-308))
+    P.check("gibbs.result-is-the-draw-above-underflow", draw is not None and z3.And(P.z(I.to_num(out)) > 0, z3.Implies(P.z(draw) > P.z(tiny), P.z(I.to_num(out)) == P.z(draw))) if draw is not None else False,
+            "the new value is the gamma draw itself: the mixture of the statement is sampled exactly; only draws below the smallest normal float (underflow) may be replaced by a positive floor", kind="post")
     dsl.cover(I, "result")
 
 
@@ -182,6 +186,9 @@ def chain_registry(log):
         log.append(("main", bind(I, "phyclone.run._run_main_sampler", args, kwargs)))
         return ("results",)
 
+    # the cache clears at the start of a chain (finding F15) are C18's / C14's subject
+    r.call_contracts["phyclone.utils.dev.clear_proposal_dist_caches"] = lambda I, a, k, n: log.append(("clear-proposal-caches", {}))
+    r.call_contracts["phyclone.utils.dev.clear_convolution_caches"] = lambda I, a, k, n: log.append(("clear-convolution-caches", {}))
     r.call_contracts["phyclone.run._run_burnin"] = burnin
     r.call_contracts["phyclone.run._run_main_sampler"] = main
     return r
@@ -201,8 +208,9 @@ def h_chain(I, fi):
     vals.update({"concentration_value": alpha, "outlier_prob": op, "rng": rng, "proposal": "semi-adapted", "num_particles": alg.sym("N", "Int"), "resample_threshold": alg.sym("thr"),
                  "chain_num": alg.sym("chain", "Int")})
     out = I.call_function(fi, [vals[n_] for n_ in names], {}, force_inline=True)
-    P.check("run.chain.order", [e[0] for e in log] == ["burnin", "main"] and out == ("results",), "burn-in, then the main sampler whose results are returned", kind="post")
-    B, M = log[0][1], log[1][1]
+    del_log = [e for e in log if not e[0].startswith("clear-")]
+    P.check("run.chain.order", [e[0] for e in del_log] == ["burnin", "main"] and out == ("results",), "burn-in, then the main sampler whose results are returned", kind="post")
+    B, M = del_log[0][1], del_log[1][1]
     td = M["tree_dist"]
     sh = M["samplers"]
     same = (B["tree_dist"] is td and B["samplers"] is sh and I.getattr(I.getattr(sh, "tree_sampler"), "kernel") is I.getattr(I.getattr(sh, "subtree_sampler"), "kernel")
